@@ -1407,3 +1407,157 @@ example : (((PStore.init Env.fresh).run c05FullCalls).step (.api (.call (.append
   decide +kernel
 
 end XotModel.Props
+
+/-! # ================================================================================================
+    # REACHABLE STORES, continued: `clone_node`, the map updates, the frames (branch wt-comp04)
+    # ================================================================================================
+
+  As `C05_reachable_pair_full`: `s` is the store ANY history of parses and extended API calls reaches from
+  `Xot::new()`, the call is made as the next step `.api (.call …)` of the same history; the only hypotheses left
+  are `PCall.wellKinded` of the earlier steps and what the originals ask of the call itself. -/
+
+namespace XotModel.Props
+open XotModel Spec
+
+/-- ⟦C05_reachable_clone_map_full⟧ `clone_node` of a live node and the attribute / namespace map updates
+    (`k : Forest.MapKind`, both views) of an element, each made as the next step on a reached store: the answer is
+    `ok`, the forest after the step is the specification (`specClone`, `specMapInsert`, `specMapRemove`) handle for
+    handle; for the clone also: the old trees stay, exactly one tree is added after them, all its handles are new. -/
+theorem C05_reachable_clone_map_full (env : Env) (cs : List PCall) (hw : ∀ c ∈ cs, c.wellKinded) :
+    let s := (PStore.init env).run cs
+    let after := fun (c : Forest.Call) => (s.step (.api (.call c))).forest
+    let answer := fun (c : Forest.Call) => ((PCall.api (.call c)).run s).2
+    (∀ n src, s.forest.get? n = some src →
+      after (.cloneNode n) = specClone n s.forest ∧ answer (.cloneNode n) = .api .ok ∧
+      ∃ c C, (s.forest.cloneNode n).2 = some c ∧ C.handle = c ∧
+        (after (.cloneNode n)).roots = s.forest.roots ++ [C] ∧
+        (after (.cloneNode n)).content = specCloneContent n s.forest ∧
+        (∀ h ∈ HTree.handles C, s.forest.next ≤ h ∧ h < (after (.cloneNode n)).next ∧ h ∉ s.forest.allHandles)) ∧
+    (∀ k e entry, s.forest.isElement e = true → k.matches entry = true →
+      after (.mapInsert k e entry) = specMapInsert k e entry s.forest ∧ answer (.mapInsert k e entry) = .api .ok) ∧
+    (∀ k e key, s.forest.isElement e = true →
+      after (.mapRemove k e key) = specMapRemove k e key s.forest ∧ answer (.mapRemove k e key) = .api .ok) := by
+  intro s after answer
+  have inv : s.forest.Inv := PStore.fph_run_inv cs (PStore.fph_init_inv env) hw
+  refine ⟨fun n src hsrc => ?_, fun k e entry he hm => ?_, fun k e key he => ?_⟩
+  · obtain ⟨c, C, h1, h2, h3, h4, h5, _⟩ := C05_clone_node inv hsrc
+    refine ⟨C05_clone_node_exact inv hsrc, ?_, c, C, h1, h2, h3, h4, h5⟩
+    show PRes.api (if (s.forest.cloneNode n).2.isSome then Res.ok else Res.panic) = _
+    rw [h1]; rfl
+  · have h := C05_map_insert (k := k) inv he hm
+    refine ⟨congrArg Prod.fst h, ?_⟩
+    show PRes.api (s.forest.mapInsert k e entry).2 = _
+    rw [h]
+  · have h := C05_map_remove (k := k) (key := key) inv he
+    refine ⟨congrArg Prod.fst h, ?_⟩
+    show PRes.api (s.forest.mapRemove k e key).2 = _
+    rw [h]
+
+/-- ⟦C05_reachable_map_entry_full⟧ … and the child list of the element afterwards, on a reached store: an existing
+    key keeps its node (handle, place), only the payload changes, nothing is created; a new key is carried by exactly
+    one new leaf placed after the view's entries; `remove` loses exactly the entry with the key. -/
+theorem C05_reachable_map_entry_full (env : Env) (cs : List PCall) (hw : ∀ c ∈ cs, c.wellKinded) :
+    let s := (PStore.init env).run cs
+    let after := fun (c : Forest.Call) => (s.step (.api (.call c))).forest
+    ∀ (k : Forest.MapKind) (e : Nat) (v : Value) (ks : List HTree), s.forest.isElement e = true →
+      s.forest.get? e = some (.node e v ks) →
+      (∀ entry, k.matches entry = true →
+        (∀ n, ks.find? (isEntry k (Forest.entryKey entry)) = some n →
+          ∃ X Y, ks = X ++ n :: Y ∧ (∀ c ∈ X, isEntry k (Forest.entryKey entry) c = false) ∧
+            (after (.mapInsert k e entry)).get? e =
+              some (.node e v (X ++ n.setValue (Forest.entryUpdate n.value entry) :: Y)) ∧
+            (after (.mapInsert k e entry)).next = s.forest.next) ∧
+        (ks.find? (isEntry k (Forest.entryKey entry)) = none →
+          ∃ A B, ks = A ++ B ∧ (∀ c ∈ A, kidRank c ≤ viewRank k) ∧ (∀ c ∈ B, viewRank k < kidRank c) ∧
+            (after (.mapInsert k e entry)).get? e = some (.node e v (A ++ .node s.forest.next entry [] :: B)) ∧
+            (after (.mapInsert k e entry)).next = s.forest.next + 1)) ∧
+      (∀ key,
+        (∀ n, ks.find? (isEntry k key) = some n →
+          ∃ X Y, ks = X ++ n :: Y ∧ (after (.mapRemove k e key)).get? e = some (.node e v (X ++ Y))) ∧
+        (ks.find? (isEntry k key) = none → (after (.mapRemove k e key)).get? e = some (.node e v ks)) ∧
+        (after (.mapRemove k e key)).next = s.forest.next) := by
+  intro s after k e v ks he hg
+  have inv : s.forest.Inv := PStore.fph_run_inv cs (PStore.fph_init_inv env) hw
+  exact ⟨fun entry hm => C05_map_insert_entry inv he hm hg, fun key => C05_map_remove_entry inv he hg⟩
+
+/-- ⟦C05_reachable_frame_full⟧ **The frame theorems on reached stores**: the call is a step appended to a `PCall`
+    history; `x` is a node of the reached store with the context `cx` (parent, left siblings, value, right siblings).
+    Under the same conditions on `x` as in `C05_pair_frame_*` / `C05_map_frame` (its parent is not one of the touched
+    child lists, it lies in no moved / destroyed subtree) `x` keeps parent, value and sibling handles
+    (`HTree.Ctx.shape`) across the step.  No `Forest.Normal`: consolidation may have been off earlier in the
+    history.  `clone_node`: every old tree is literally unchanged (`C05_reachable_clone_map_full`: `roots ++ [C]`),
+    so every context is. -/
+theorem C05_reachable_frame_full (env : Env) (cs : List PCall) (hw : ∀ c ∈ cs, c.wellKinded) :
+    let s := (PStore.init env).run cs
+    let after := fun (c : Forest.Call) => (s.step (.api (.call c))).forest
+    let ok := fun (c : Forest.Call) => ((PCall.api (.call c)).run s).2 = .api .ok
+    let kept := fun (c : Forest.Call) (x : Nat) (cx : HTree.Ctx) =>
+      ∃ cx', (after c).ctx? x = some cx' ∧ cx'.shape = cx.shape
+    ∀ (x : Nat) (cx : HTree.Ctx), s.forest.ctx? x = some cx →
+    (∀ p c t, ok (.append p c) → s.forest.get? c = some t → cx.parent ≠ p → some cx.parent ≠ s.forest.parent? c →
+      cx.parent ∉ HTree.handles t → x ∉ HTree.handles t → kept (.append p c) x cx) ∧
+    (∀ p c t, ok (.prepend p c) → s.forest.get? c = some t → cx.parent ≠ p → some cx.parent ≠ s.forest.parent? c →
+      cx.parent ∉ HTree.handles t → x ∉ HTree.handles t → kept (.prepend p c) x cx) ∧
+    (∀ r c q t, ok (.insertAfter r c) → s.forest.get? c = some t → s.forest.parent? r = some q → cx.parent ≠ q →
+      some cx.parent ≠ s.forest.parent? c → cx.parent ∉ HTree.handles t → x ∉ HTree.handles t →
+      kept (.insertAfter r c) x cx) ∧
+    (∀ r c q t, ok (.insertBefore r c) → s.forest.get? c = some t → s.forest.parent? r = some q → cx.parent ≠ q →
+      some cx.parent ≠ s.forest.parent? c → cx.parent ∉ HTree.handles t → x ∉ HTree.handles t →
+      kept (.insertBefore r c) x cx) ∧
+    (∀ n t, s.forest.get? n = some t → some cx.parent ≠ s.forest.parent? n → cx.parent ∉ HTree.handles t →
+      x ∉ HTree.handles t → kept (.remove n) x cx ∧ kept (.detach n) x cx) ∧
+    (∀ n p, ok (.elementUnwrap n) → s.forest.parent? n = some p → cx.parent ≠ p → cx.parent ≠ n →
+      kept (.elementUnwrap n) x cx) ∧
+    (∀ n name t, ok (.elementWrap n name) → s.forest.get? n = some t → some cx.parent ≠ s.forest.parent? n →
+      kept (.elementWrap n name) x cx) ∧
+    (∀ a b q A t, ok (.replace a b) → s.forest.get? a = some A → s.forest.get? b = some t →
+      s.forest.parent? a = some q → cx.parent ≠ q → some cx.parent ≠ s.forest.parent? b →
+      cx.parent ∉ HTree.handles t → x ∉ HTree.handles t → cx.parent ∉ HTree.handles A → x ∉ HTree.handles A →
+      kept (.replace a b) x cx) ∧
+    (∀ k e, s.forest.isElement e = true → cx.parent ≠ e →
+      (∀ entry, k.matches entry = true → kept (.mapInsert k e entry) x cx) ∧
+      (∀ key, kept (.mapRemove k e key) x cx)) := by
+  intro s after ok kept x cx hx
+  have inv : s.forest.Inv := PStore.fph_run_inv cs (PStore.fph_init_inv env) hw
+  refine ⟨fun p c t h hg h1 h2 h3 h4 => C05_pair_frame_append inv (PRes.api.inj h) hg hx h1 h2 h3 h4,
+    fun p c t h hg h1 h2 h3 h4 => C05_pair_frame_prepend inv (PRes.api.inj h) hg hx h1 h2 h3 h4,
+    fun r c q t h hg hq h1 h2 h3 h4 => C05_pair_frame_insertAfter inv (PRes.api.inj h) hg hq hx h1 h2 h3 h4,
+    fun r c q t h hg hq h1 h2 h3 h4 => C05_pair_frame_insertBefore inv (PRes.api.inj h) hg hq hx h1 h2 h3 h4,
+    fun n t hg h1 h3 h4 => ⟨C05_pair_frame_remove inv hg hx h1 h3 h4, C05_pair_frame_detach inv hg hx h1 h3 h4⟩,
+    fun n p h hp h1 h2 => C05_pair_frame_unwrap inv (PRes.api.inj h) hp hx h1 h2,
+    fun n name t h hg h1 => C05_pair_frame_wrap inv (PRes.api.inj h) hg hx h1,
+    fun a b q A t h hA hb hq h1 h2 h3 h4 h5 h6 =>
+      C05_pair_frame_replace inv (PRes.api.inj h) hA hb hq hx h1 h2 h3 h4 h5 h6,
+    fun k e he hne => C05_map_frame (k := k) inv he hx hne⟩
+
+/-- ⟦C05_reachable_roots_frame_full⟧ The parentless trees under the map updates and `clone_node` on a reached store:
+    a tree not holding the element is identical, at the same index; `clone_node` keeps every tree at its index. -/
+theorem C05_reachable_roots_frame_full (env : Env) (cs : List PCall) (hw : ∀ c ∈ cs, c.wellKinded) :
+    let s := (PStore.init env).run cs
+    let after := fun (c : Forest.Call) => (s.step (.api (.call c))).forest
+    ∀ (i : Nat) (r : HTree), s.forest.roots[i]? = some r →
+    (∀ k e, s.forest.isElement e = true → e ∉ HTree.handles r →
+      (∀ entry, k.matches entry = true → (after (.mapInsert k e entry)).roots[i]? = some r) ∧
+      (∀ key, (after (.mapRemove k e key)).roots[i]? = some r)) ∧
+    (∀ n src, s.forest.get? n = some src → (after (.cloneNode n)).roots[i]? = some r) := by
+  intro s after i r hr
+  have inv : s.forest.Inv := PStore.fph_run_inv cs (PStore.fph_init_inv env) hw
+  refine ⟨fun k e he her => C05_map_roots_frame (k := k) inv he hr her, fun n src hsrc => ?_⟩
+  obtain ⟨c, C, _, _, h3, _⟩ := C05_clone_node inv hsrc
+  show (s.forest.cloneNode n).1.roots[i]? = some r
+  rw [h3, List.getElem?_append_left (List.getElem?_eq_some_iff.mp hr).1]
+  exact hr
+
+/-! ### Non-vacuity: parse `<r>a<b/>c</r>` (document 0, `r` 1, `a` 2, `b` 3, `c` 4); then `clone_node(r)`,
+    `set_attribute(r, 7, "v")`, and `append(r, a)` seen from `b` (its left sibling `a` leaves: `b` is under the touched
+    parent, not framed) and from `r` (parent 0: framed). -/
+example : let s := (PStore.init Env.fresh).run c05FullCalls
+    s.forest.get? 1 ≠ none ∧ s.forest.isElement 1 = true ∧
+    (s.step (.api (.call (.cloneNode 1)))).forest.roots.length = 2 ∧
+    ((s.step (.api (.call (.mapInsert .attributes 1 (.attribute 7 ['v']))))).forest.get? 1).map (·.kids.length) = some 4 ∧
+    ((PCall.api (.call (.append 1 2))).run s).2 = .api .ok ∧
+    (s.forest.ctx? 1).map HTree.Ctx.shape = some (0, [], .element 2, []) ∧
+    ((s.step (.api (.call (.append 1 2)))).forest.ctx? 1).map HTree.Ctx.shape = some (0, [], .element 2, []) := by
+  decide +kernel
+
+end XotModel.Props
